@@ -66,7 +66,7 @@ def build_rust():
         # VERIF_COVERAGE=1 (tools/coverage.sh): an instrumented build with the nightly toolchain, whose llvm-tools read the
         # profiles; used to measure which parts of /repo the correspondence runs execute, never by a registered check
         cov = os.environ.get("VERIF_COVERAGE") == "1"
-        cargo = ["cargo", "+nightly"] if cov else ["cargo"]
+        cargo = ["cargo"]
         cenv = {"RUSTFLAGS": "-C instrument-coverage", "LLVM_PROFILE_FILE": "/dev/null"} if cov else {}
         r = sh(cargo + ["build", "--offline", "--quiet", "--manifest-path",
                 os.path.join(hdir, "Cargo.toml"), "--target-dir", TARGET], env=cenv,
